@@ -266,7 +266,9 @@ fn base_expressions() -> Vec<String> {
     v
 }
 
-const EDIT_SIGMA: &str = "0123456789*/-,abcdefghijklmnopqrstuvwxyz +.#?_L";
+// the last four characters are the non-ASCII characters whose Unicode upper- or lower-casing is an
+// ASCII letter (long s, dotless i, dotted capital I, Kelvin sign)
+const EDIT_SIGMA: &str = "0123456789*/-,abcdefghijklmnopqrstuvwxyz +.#?_L\u{17f}\u{131}\u{130}\u{212a}";
 
 fn mutants(base: &str) -> Vec<String> {
     let c: Vec<char> = base.chars().collect();
@@ -320,7 +322,7 @@ pub fn run(ctx: &Ctx) -> i32 {
     all.sort();
     all.dedup();
     let thorough = ctx.thorough;
-    rep.sweep("mutants: every single-character deletion / insertion / substitution of the base expressions", all.len() as u64, "alphabet 0-9 * / - , a-z space + . # ? _ L", |i, acc| {
+    rep.sweep("mutants: every single-character deletion / insertion / substitution of the base expressions", all.len() as u64, "alphabet 0-9 * / - , a-z space + . # ? _ L and the four non-ASCII case-mapping aliases of s, i, k", |i, acc| {
         case_expr(&all[i as usize], thorough || i % 4 == 0, acc);
         if i % 50_021 == 0 {
             acc.sample(json!({"expr": all[i as usize], "reference": format!("{:?}", rc::parse(&all[i as usize])).chars().take(60).collect::<String>()}));
